@@ -60,7 +60,17 @@ func authTypes(extra ...uint16) []uint16 {
 }
 
 func dataTypes(r *vlib.R) []uint16 {
-	switch r.Intn(8) {
+	switch r.Intn(12) {
+	// RR type codes of 64 and above (SVCB, HTTPS, SPF, URI, CAA, a private-use one): beyond one machine
+	// word of a bit mask, in further windows of the wire bitmap
+	case 8:
+		return []uint16{tA, 65}
+	case 9:
+		return []uint16{257}
+	case 10:
+		return []uint16{64, 99, 256}
+	case 11:
+		return []uint16{tTXT, 65, 65280}
 	case 0:
 		return []uint16{tA, tAAAA}
 	case 1:
@@ -271,7 +281,7 @@ func flipCase(r *vlib.R, n name) name {
 	return out
 }
 
-var qtypes = []uint16{tA, tA, tA, tAAAA, tNS, tCNAME, tSOA, tMX, tTXT, tDS, tDS, tDNAME, tNSEC, tRRSIG, tDNSKEY, 255, 0, 41, 250, 252, 65280, 99}
+var qtypes = []uint16{64, 65, 256, 257, tA, tA, tA, tAAAA, tNS, tCNAME, tSOA, tMX, tTXT, tDS, tDS, tDNAME, tNSEC, tRRSIG, tDNSKEY, 255, 0, 41, 250, 252, 65280, 99}
 
 // relevant: the chain records a correct proof about q would use (computed
 // from the oracle's own order, not from the code under test).
@@ -596,6 +606,9 @@ func genNsecCase(r *vlib.R, emit func(string)) int {
 				qq = flipCase(r, qq)
 			}
 			t := vlib.Pick(r, qtypes)
+			if nd := z.find(qq.fold()); nd != nil && r.Chance(1, 3) {
+				t = vlib.Pick(r, sortedTypes(nd.types)) // a type the name HAS: NODATA for it is a lie
+			}
 			sg := genSigner(r, z)
 			c := 1
 			if r.Chance(1, 20) {
@@ -864,6 +877,14 @@ func authWitnessOps() []string {
 		"z auth example nope.example 46 nx good",
 		"z auth example nope.example 1 nx nodsig",
 		"z auth example nope.example 1 nx insec",
+		// RR types of 64 and above present in the bitmap must be seen (NSEC and NSEC3 share typesSet)
+		"z new example 1 example:2,6,46,47,48;www.example:1,46,47,65,257",
+		"z set example|www.example|1|2,6,46,47,48;www.example|example|1|1,46,47,65,257",
+		"z nod example www.example 65",
+		"z nod example www.example 257",
+		"z agg example www.example 65 1",
+		"z auth example www.example 65 nd good",
+		"z nod example www.example 64",
 		// the real Resolver.answer on wildcard expansions (really signed under *.example, presented under the owner):
 		"z new example 1 example:2,6,46,47,48;*.example:1,46,47;www.example:1,46,47;a.b.example:1,46,47",
 		// only a record of ANOTHER zone spans the next closer name: nothing authenticated it, no denial
